@@ -305,7 +305,7 @@ class PrettyFormatter(Formatter):
         #self.print_comments(step.comments, "    ")
         self.stream.write(prefix)
         self.stream.write(text_format.text(step.keyword + " "))
-        line_length = 5 + len(step.keyword)
+        line_length = len(prefix) + len(step.keyword) + 1
 
         step_name = six.text_type(step.name)
 
